@@ -31,9 +31,36 @@ type Case struct {
 	Rot       int    `json:"rot"` // quarter turns clockwise
 	Mirror    bool   `json:"mirror"`
 	TryHarder bool   `json:"try_harder"`
-	Height    int    `json:"height"`             // 1-D bar height requested from the writer
-	Margin    int    `json:"margin"`             // 1-D margin hint (-1 none)
-	Positive  string `json:"positive,omitempty"` // "", "rot180", "rot90", "transpose": assert the positive guarantee
+	Height    int    `json:"height"`                      // 1-D bar height requested from the writer
+	Margin    int    `json:"margin"`                      // 1-D margin hint (-1 none)
+	Positive  string `json:"positive,omitempty"`          // "", "rot180", "rot90", "transpose": assert the positive guarantee
+	Callback  bool   `json:"callback,omitempty"`          // NEED_RESULT_POINT_CALLBACK
+	CodabarSE bool   `json:"codabar_start_end,omitempty"` // RETURN_CODABAR_START_END
+	Lengths   []int  `json:"allowed_lengths,omitempty"`   // ALLOWED_LENGTHS
+	GS1       bool   `json:"assume_gs1,omitempty"`
+}
+
+func (c Case) hints() map[gozxing.DecodeHintType]interface{} {
+	h := map[gozxing.DecodeHintType]interface{}{}
+	if c.TryHarder {
+		h[gozxing.DecodeHintType_TRY_HARDER] = true
+	}
+	if c.Callback {
+		h[gozxing.DecodeHintType_NEED_RESULT_POINT_CALLBACK] = gozxing.ResultPointCallback(func(gozxing.ResultPoint) {})
+	}
+	if c.CodabarSE {
+		h[gozxing.DecodeHintType_RETURN_CODABAR_START_END] = true
+	}
+	if c.Lengths != nil {
+		h[gozxing.DecodeHintType_ALLOWED_LENGTHS] = c.Lengths
+	}
+	if c.GS1 {
+		h[gozxing.DecodeHintType_ASSUME_GS1] = true
+	}
+	if len(h) == 0 {
+		return nil
+	}
+	return h
 }
 
 func render(c Case) (*gozxing.BitMatrix, gozxing.Reader, gozxing.BarcodeFormat, error) {
@@ -67,7 +94,7 @@ func check(raw json.RawMessage) error {
 	if err := json.Unmarshal(raw, &c); err != nil {
 		return fmt.Errorf("hx: %v", err)
 	}
-	desc := fmt.Sprintf("%s content=%q pad=%v scale=%d rot=%d mirror=%v tryharder=%v height=%d margin=%d", c.Sym, c.Content, c.Pad, c.Scale, c.Rot*90, c.Mirror, c.TryHarder, c.Height, c.Margin)
+	desc := fmt.Sprintf("%s content=%q pad=%v scale=%d rot=%d mirror=%v tryharder=%v height=%d margin=%d callback=%v codabar_se=%v lengths=%v gs1=%v", c.Sym, c.Content, c.Pad, c.Scale, c.Rot*90, c.Mirror, c.TryHarder, c.Height, c.Margin, c.Callback, c.CodabarSE, c.Lengths, c.GS1)
 	if c.Positive == "transpose" {
 		code, err := encoder.Encoder_encode(c.Content, decoder.ErrorCorrectionLevel_M, nil)
 		if err != nil {
@@ -101,9 +128,18 @@ func check(raw json.RawMessage) error {
 	if err != nil {
 		return fmt.Errorf("hx: bitmap: %v", err)
 	}
-	var hints map[gozxing.DecodeHintType]interface{}
-	if c.TryHarder {
-		hints = map[gozxing.DecodeHintType]interface{}{gozxing.DecodeHintType_TRY_HARDER: true}
+	hints := c.hints()
+	// what the image encodes under these hints: the canonical content, except that Codabar with
+	// RETURN_CODABAR_START_END reports the guards as well (read off the untransformed writer output)
+	want := c.Canonical
+	if c.CodabarSE && c.Sym == "CODABAR" {
+		ubmp, _ := gozxing.NewBinaryBitmapFromImage(bm)
+		if ur, uerr := reader.Decode(ubmp, hints); uerr == nil {
+			want = ur.GetText()
+			if len(want) != len(c.Canonical)+2 || want[1:len(want)-1] != c.Canonical {
+				return fmt.Errorf("upright Codabar read with RETURN_CODABAR_START_END gives %q for data %q [%s]", want, c.Canonical, desc)
+			}
+		}
 	}
 	res, err := reader.Decode(bmp, hints)
 	if err != nil {
@@ -118,8 +154,8 @@ func check(raw json.RawMessage) error {
 	if res == nil {
 		return fmt.Errorf("neither result nor error [%s]", desc)
 	}
-	if res.GetText() != c.Canonical || res.GetBarcodeFormat() != format {
-		return fmt.Errorf("MISREAD: returned %q (%v), the image encodes %q (%v) [%s]", res.GetText(), res.GetBarcodeFormat(), c.Canonical, format, desc)
+	if res.GetText() != want || res.GetBarcodeFormat() != format {
+		return fmt.Errorf("MISREAD: returned %q (%v), the image encodes %q (%v) [%s]", res.GetText(), res.GetBarcodeFormat(), want, format, desc)
 	}
 	if c.Positive == "rot180" {
 		if o, _ := res.GetResultMetadata()[gozxing.ResultMetadataType_ORIENTATION].(int); o != 180 {
@@ -141,11 +177,7 @@ func outcome(c Case) string {
 	}
 	img = imgx.Pad(imgx.Rotate(img, c.Rot), c.Pad[0], c.Pad[1], c.Pad[2], c.Pad[3])
 	bmp, _ := gozxing.NewBinaryBitmapFromImage(img)
-	var hints map[gozxing.DecodeHintType]interface{}
-	if c.TryHarder {
-		hints = map[gozxing.DecodeHintType]interface{}{gozxing.DecodeHintType_TRY_HARDER: true}
-	}
-	if _, err := reader.Decode(bmp, hints); err != nil {
+	if _, err := reader.Decode(bmp, c.hints()); err != nil {
 		return "not_read"
 	}
 	return "decoded"
@@ -240,6 +272,16 @@ func TestCheck(t *testing.T) {
 					cs.Mirror = rapid.IntRange(0, 3).Draw(t, "mirror") == 0
 				}
 				cs.TryHarder = rapid.Bool().Draw(t, "tryharder")
+				cs.Callback = rapid.IntRange(0, 2).Draw(t, "callback") == 0
+				if sym == "CODABAR" {
+					cs.CodabarSE = rapid.Bool().Draw(t, "codabar_se")
+				}
+				if sym == "ITF" && rapid.Bool().Draw(t, "lengths") {
+					cs.Lengths = []int{len(cs.Canonical)}
+				}
+				if sym == "CODE128" {
+					cs.GS1 = rapid.IntRange(0, 3).Draw(t, "gs1") == 0
+				}
 				if sym != "QR" && sym != "DM" {
 					cs.Height = rapid.SampledFrom([]int{1, 5, 20, 40, 60}).Draw(t, "height")
 					if rapid.Bool().Draw(t, "margin") {
@@ -277,6 +319,13 @@ func TestCheck(t *testing.T) {
 				cs.Margin = 13 // default margin: known finding upce-trailing-quiet-zone (C03)
 			}
 			cs.TryHarder = rapid.Bool().Draw(t, "tryharder")
+			cs.Callback = rapid.Bool().Draw(t, "callback")
+			if sym == "CODABAR" {
+				cs.CodabarSE = rapid.Bool().Draw(t, "codabar_se")
+			}
+			if sym == "ITF" && rapid.Bool().Draw(t, "lengths") {
+				cs.Lengths = []int{len(cs.Canonical)}
+			}
 			raw, _ := json.Marshal(cs)
 			c.Note("positive_1d_upside_down", "sym="+sym, true, hx.Hash(raw), func() any { return cs })
 			if err := c.Eval("pose", cs); err != nil {
